@@ -49,6 +49,9 @@ package dhcp
 //@   ensures !locked(macstr(mac) in p.allocated) && err == nil ==> forall i int :: 0 <= i && i < len(p.available) ==> ipkey(p.available[i]) != ipkey(result)
 //@   ensures err != nil ==> locked(len(p.available)) == 0 && !locked(macstr(mac) in p.allocated) && macstr(mac) !in p.allocated && p.available == locked(p.available)
 
+//@   sets allocOK = ite(err == nil, 1, 0)
+//@   sets allocKey = ipkey(result)
+
 //@ func (p *Pool) Release
 //@   modifies p.allocated, p.available
 //@   sets relPool = relPool + 1
@@ -168,3 +171,12 @@ package dhcp
 //@ func (s *Server) handleRequest
 //@   ghost poolOwner int = 0
 //@   ensures s.acksTotal == old(s.acksTotal) + 1 ==> (existingLease != nil && ipkey(existingLease.IP) == ipkey(requestedIP)) || poolOwner == 1 || old(s.httpAllocator != nil && s.httpAllocatorPool != "")
+
+// The OFFER path of handleDiscover (the only place that increments offersTotal)
+// offers the client's own leased address, or the address Pool.Allocate returned
+// for this client's MAC (nobody else holds it, by Allocate's contract), or a
+// Nexus-managed address.
+//@ func (s *Server) handleDiscover
+//@   ghost allocOK int = 0
+//@   ghost allocKey int = 0
+//@   ensures s.offersTotal == old(s.offersTotal) + 1 ==> (existingLease != nil && ip == existingLease.IP) || (allocOK == 1 && ipkey(ip) == allocKey) || old(s.httpAllocator != nil && s.httpAllocatorPool != "") || old(s.nexusClient != nil)
